@@ -5,7 +5,7 @@ from xdsl.context import Context
 from xdsl.dialects import builtin, scf
 from xdsl.dialects.builtin import IndexType, MemRefType
 from xdsl.dialects.linalg import GenericOp
-from xdsl.dialects.memref import CopyOp
+from xdsl.dialects.memref import AllocOp, CopyOp
 from xdsl.dialects.scf import ForOp
 from xdsl.ir import Block, Operation, Region, SSAValue, Use
 from xdsl.irdl import Operand
@@ -75,6 +75,10 @@ class ConstructPipeline(RewritePattern):
             if dispatch_to_compute(op, self.ctx) or dispatch_to_dm(op, self.ctx):
                 return False
             if isinstance(op, ClusterSyncOp):
+                return False
+            # a buffer allocated in the loop body is one buffer per iteration: cloning the
+            # index ops per stage would hand every stage a buffer of its own
+            if isinstance(op, AllocOp):
                 return False
             return True
 
